@@ -395,6 +395,67 @@ func runC16(seed int64, tier string, sc *Script, withBody bool) map[string]any {
 			}
 		}
 	}
+	// StaticCredential: one registry's credential on a client that also talks to registries
+	// whose host[:port] text merely resembles it
+	if !withBody {
+		regA := "h1.test"
+		lookalikes := []string{"h1.test:8443", "h1.testing", "h1.test.evil.test", "xh1.test", "h1.tes", "H1.test"}
+		for li, regB := range lookalikes {
+			for _, chal := range []string{"basic", "bearer"} {
+				for cacheKind := 0; cacheKind < 3; cacheKind++ {
+					sc.Case("auth-static-credential")
+					sc.NonTrivial()
+					hn := map[string]int{regA: 1, regB: 6, "realm.test": 4, "realmb.test": 7}
+					net := &authNet{replies: map[string][]string{}, hostNum: hn}
+					client := &auth.Client{
+						Client:     &http.Client{Transport: net},
+						Credential: auth.StaticCredential(regA, auth.Credential{Username: "user", Password: "PW-h1", RefreshToken: "RT-h1"}),
+					}
+					switch cacheKind {
+					case 0:
+						client.Cache = auth.NewCache()
+					case 1:
+						client.Cache = auth.NewSingleContextCache()
+					}
+					client.ForceAttemptOAuth2 = li%2 == 0
+					net.fetch = fmt.Sprintf("TOK-%d", 7000+li)
+					for step, host := range []string{regA, regB, regA, regB} {
+						realm := "realm.test"
+						if host == regB {
+							realm = "realmb.test"
+						}
+						r := "basic"
+						if chal == "bearer" {
+							r = fmt.Sprintf("bearer|%s|repository:a:pull", realm)
+						}
+						net.replies[host] = []string{r, "final", "final"}
+						net.out = nil
+						req, _ := http.NewRequest(http.MethodGet, "https://"+host+"/v2/a/manifests/x", nil)
+						resp, err := client.Do(req)
+						if err == nil {
+							resp.Body.Close()
+						}
+						verdict := "clean"
+						for _, o := range net.out {
+							var to int
+							var rest string
+							fmt.Sscanf(o, "to=%d:%s", &to, &rest)
+							isFetch := strings.HasSuffix(rest, ":F")
+							if strings.Contains(rest, "pw1") || strings.Contains(rest, "rt1") {
+								// A's secrets: to A itself, or to the realm A advertised
+								if !(to == 1 || (isFetch && to == 4 && host == regA)) {
+									verdict = "leak:" + o
+								}
+							}
+						}
+						sc.Op(verdict, "au scan static b=%s chal=%s step=%d", regB, chal, step)
+						evals++
+					}
+					sc.Count("static:" + chal)
+				}
+			}
+		}
+	}
 	// CleanScopes: exhaustive short lists over a pool of well-formed and malformed scopes
 	sc.Case("clean-scopes")
 	sc.NonTrivial()
